@@ -163,6 +163,14 @@ def history_one(args):
                 elif kind == 'die':
                     sched.sockets[-1]._die(op[1])
                     sleep(0.02)
+                elif kind == 'die-partial':
+                    # the transport dies in the middle of an inbound frame: its first bytes stay in IO.data_in
+                    from pamqp import frame as pframe
+                    raw = pframe.marshal(spec.Basic.Deliver(consumer_tag='ct', delivery_tag=1, redelivered=False, exchange='', routing_key='rk'), 1)
+                    ctx.net.deliver(sched.sockets[-1], raw[:max(1, min(op[2], len(raw) - 1))])
+                    ctx.quiesce()
+                    sched.sockets[-1]._die(op[1])
+                    sleep(0.02)
                 elif kind == 'silent':
                     broker().silent = True
                 elif kind == 'to-timer':
@@ -227,6 +235,8 @@ def history_one(args):
                     out['problems'].append(('C08/close-leaks-io', 'after close(): ' + leak, k))
                 if s['timers'] or s['hb']:
                     out['problems'].append(('C08/close-leaves-heartbeat-timer', 'after close(): ' + leak, k))
+            if kind == 'open' and op[1] == 'ok' and res != 'ok':
+                out['problems'].append(('C08/open-fails-though-broker-answers', 'open() against a broker that answers normally gave %r (stale state from the previous connection?)' % (res,), k))
             if kind == 'open' and res == 'raised':
                 if s['socks'] or s['readers'] or s['timers']:
                     out['problems'].append(('C08/failed-open-leaks/%s' % op[1], 'after the failed open(): ' + leak, k))
@@ -268,6 +278,9 @@ def model_lines(sc, results):
             lines.append('c08.op broker-close-conn')
         elif k == 'die':
             lines.append('c08.op die')
+            dead = True
+        elif k == 'die-partial':
+            lines.append('c08.op die-partial')
             dead = True
         elif k == 'silent':
             silent = True
@@ -335,7 +348,10 @@ def gen_history(rng, thorough):
                 ops.append([c])
                 st = 'broken'
             elif c == 'die':
-                ops.append(['die', rng.choice(['eof', 'reset'])])
+                if rng.random() < 0.4:
+                    ops.append(['die-partial', rng.choice(['eof', 'reset']), rng.choice([1, 3, 6, 7, 8, 11, 20])])
+                else:
+                    ops.append(['die', rng.choice(['eof', 'reset'])])
                 st = 'broken'
             elif c == 'silent':
                 ops.append(['silent'])
@@ -418,6 +434,11 @@ def check(rep):
             ops += [['confirm', 1], ['broker-close-chan', 1], ['chan-reopen', 1]]
         ops.append(['close', 1, False])
         jobs.append(({'hb': 0, 'ops': ops}, rng.randrange(1 << 30)))
+    # the transport dies in the middle of a frame, close, open again: the reopened connection must work
+    for _ in range(24 if not thorough else 400):
+        ops = [['open', 'ok'], ['channel', 1], ['die-partial', rng.choice(['eof', 'reset']), rng.choice([1, 3, 6, 7, 8, 11, 20])],
+               ['close', 1, False], ['open', 'ok'], ['channel', 1], ['close', 1, False]]
+        jobs.append(({'hb': 0, 'ops': ops}, rng.randrange(1 << 30)))
     # close() exactly when the heartbeat timer fires, under heavy pre-emption (stop() against the re-arm)
     for _ in range(160 if not thorough else 3000):
         ops = [['open', 'ok']]
@@ -439,7 +460,7 @@ def check(rep):
         mine = outs[pos:pos + n]
         pos += n
         kinds = [op[0] for op in sc['ops']]
-        nontrivial = any(o[0] == 'open' and o[1] != 'ok' for o in sc['ops']) or kinds.count('open') > 1 or 'die' in kinds or \
+        nontrivial = any(o[0] == 'open' and o[1] != 'ok' for o in sc['ops']) or kinds.count('open') > 1 or 'die' in kinds or 'die-partial' in kinds or \
             'broker-close-conn' in kinds or 'chan-reopen' in kinds
         rep.case(('history', repr(sc), seed), nontrivial, sample={'scenario': sc, 'results': r['results']})
         for op in sc['ops']:
